@@ -74,7 +74,21 @@ type linEval struct {
 	nonneg map[string]bool      // symbols known to be >= 0 (lengths, sizes)
 }
 
+// choiceKey: phis of one block are selected by the same incoming edge, so they share one choice point.
+func choiceKey(v ssa.Value) ssa.Value {
+	if p, ok := v.(*ssa.Phi); ok {
+		for _, in := range p.Block().Instrs {
+			if first, ok := in.(*ssa.Phi); ok {
+				return first
+			}
+			break
+		}
+	}
+	return v
+}
+
 func (le *linEval) note(v ssa.Value) {
+	v = choiceKey(v)
 	for _, p := range le.phis {
 		if p == v {
 			return
@@ -178,7 +192,7 @@ func (le *linEval) form(v ssa.Value) LinF {
 			return le.sym("loopvar:"+x.Name(), nonNegLoopVar(x))
 		}
 		le.note(x)
-		if i, ok := le.choice[x]; ok && i < len(x.Edges) {
+		if i, ok := le.choice[choiceKey(x)]; ok && i < len(x.Edges) {
 			return le.form(x.Edges[i])
 		}
 		return le.form(x.Edges[0])
@@ -241,8 +255,11 @@ func (le *linEval) lenForm(v ssa.Value) LinF {
 			return le.bufLenSym(x.Call.Args[0], x)
 		}
 	case *ssa.Phi:
+		if isLoopVar(x) {
+			return le.sym("len(loopvar:"+x.Name()+")", true)
+		}
 		le.note(x)
-		if i, ok := le.choice[x]; ok && i < len(x.Edges) {
+		if i, ok := le.choice[choiceKey(x)]; ok && i < len(x.Edges) {
 			return le.lenForm(x.Edges[i])
 		}
 		return le.lenForm(x.Edges[0])
@@ -296,6 +313,16 @@ func (le *linEval) condFacts(cond ssa.Value, truth bool) []LinF {
 		return []LinF{a.add(b, -1)}
 	case token.EQL:
 		return []LinF{a.add(b, -1), b.add(a, -1)}
+	case token.NEQ:
+		// x != 0 for an unsigned x: x >= 1
+		if bb, ok := bo.X.Type().Underlying().(*types.Basic); ok && bb.Info()&types.IsUnsigned != 0 {
+			if b.isConst() && b.K == 0 {
+				return []LinF{a.add(one, -1)}
+			}
+			if a.isConst() && a.K == 0 {
+				return []LinF{b.add(one, -1)}
+			}
+		}
 	}
 	return nil
 }
@@ -352,6 +379,7 @@ type LinGoal struct {
 	K     int64
 	Eq    bool
 	At    *ssa.BasicBlock
+	Extra []LinF // further facts known to hold (established invariants)
 }
 
 type LinResult struct {
@@ -419,6 +447,7 @@ func (ge *GuardEngine) LinProve(g LinGoal) LinResult {
 		if g.At != nil {
 			facts = append(facts, e.domFacts(g.At)...)
 		}
+		facts = append(facts, g.Extra...)
 		for s := range e.nonneg {
 			f := newLin()
 			f.T[s] = 1
